@@ -68,6 +68,8 @@ func (c *Ctx) seqIs(fn *ssa.Function, label string, got []string, want []string)
 
 func runC26(c *Ctx) {
 	w := c.W
+	suiteTableRule(c, "implementedCipherSuites")
+	suiteTableRule(c, "cipherSuites")
 	pkg := "z/tls"
 	if w.Pkg(pkg) == nil {
 		c.Undecided("R-LAYOUT", pkg, "package", "-", "not loaded")
